@@ -606,24 +606,39 @@ pub fn run_c35(_p: &str, _tier: Tier, run_seed: u64, ov: &Value) -> RunOut {
                             out.violations.push(viol("decides-consistently", "ok-despite-failed-fragment", feats.clone(), format!("a /fragment exchange was faulted ({fired:?}) but /sql answered 200 distributed"), ctxj.clone()));
                         }
                         // ---- encodings: the three bodies describe the same rows
+                        // (the three formats are three executions: a finding that makes the
+                        // engine's own answer vary between executions is keyed by its rewrite)
+                        let mut feats_enc = feats.clone();
+                        for x in crate::kit::planfeat::plan_features(&ctx, &st.sql) {
+                            if !feats_enc.contains(&x) {
+                                feats_enc.push(x);
+                            }
+                        }
+                        for k in 2..=n.max(2) {
+                            for x in super::runs::shard_plan_features(&ctx, &st.sql, k) {
+                                if !feats_enc.contains(&x) {
+                                    feats_enc.push(x);
+                                }
+                            }
+                        }
                         if answers.iter().all(|(_, o)| o.status == 200) {
                             let arrow_rows = match decode_arrow(&answers[0].1.body) {
                                 Ok(r) => r,
                                 Err(e) => {
-                                    out.violations.push(viol("encodes-the-engine-rows", "arrow-body-undecodable", feats.clone(), format!("arrow body does not decode: {e}"), ctxj.clone()));
+                                    out.violations.push(viol("encodes-the-engine-rows", "arrow-body-undecodable", feats_enc.clone(), format!("arrow body does not decode: {e}"), ctxj.clone()));
                                     continue;
                                 }
                             };
                             let hdr_rows = answers[0].1.header("x-qe-rows").and_then(|v| v.parse::<usize>().ok());
                             if hdr_rows != Some(arrow_rows.len()) {
-                                out.violations.push(viol("encodes-the-engine-rows", "x-qe-rows-differs", feats.clone(), format!("x-qe-rows={hdr_rows:?} but the arrow body holds {} rows", arrow_rows.len()), ctxj.clone()));
+                                out.violations.push(viol("encodes-the-engine-rows", "x-qe-rows-differs", feats_enc.clone(), format!("x-qe-rows={hdr_rows:?} but the arrow body holds {} rows", arrow_rows.len()), ctxj.clone()));
                             }
                             // against the engine itself for local answers
                             if dist_hdr.as_deref() == Some("false") {
                                 if let Ok(q) = ctx.sql(&st.sql).await {
                                     let direct = canon::rows_of(&q.batches);
                                     if let Err(d) = same_rows_or_page(&st.sql, &direct, &arrow_rows) {
-                                        out.violations.push(viol("encodes-the-engine-rows", "arrow-body-differs-from-engine", feats.clone(), format!("{}: {d}", st.sql), ctxj.clone()));
+                                        out.violations.push(viol("encodes-the-engine-rows", "arrow-body-differs-from-engine", feats_enc.clone(), format!("{}: {d}", st.sql), ctxj.clone()));
                                     }
                                 }
                             }
@@ -639,14 +654,14 @@ pub fn run_c35(_p: &str, _tier: Tier, run_seed: u64, ov: &Value) -> RunOut {
                                             .map(|o| names.iter().map(|nm| match o.get(nm) { None | Some(Value::Null) => None, Some(Value::String(s)) => Some(s.clone()), Some(v) => Some(v.to_string()) }).collect())
                                             .collect();
                                         if let Err(d) = text_rows_match_sql(&st.sql, &arrow_rows, &text) {
-                                            out.violations.push(viol("encodes-the-engine-rows", "json-body-differs", feats.clone(), format!("{}: {d}", st.sql), ctxj.clone()));
+                                            out.violations.push(viol("encodes-the-engine-rows", "json-body-differs", feats_enc.clone(), format!("{}: {d}", st.sql), ctxj.clone()));
                                         } else {
                                             out.bump("probe.json_roundtrip");
                                         }
                                     }
                                 }
                                 Ok(_) | Err(_) if arrow_rows.is_empty() => {}
-                                _ => out.violations.push(viol("encodes-the-engine-rows", "json-body-unparseable", feats.clone(), "the JSON body is not an array".into(), ctxj.clone())),
+                                _ => out.violations.push(viol("encodes-the-engine-rows", "json-body-unparseable", feats_enc.clone(), "the JSON body is not an array".into(), ctxj.clone())),
                             }
                             // CSV (empty strings and NULLs are both empty cells: documented lossy)
                             match parse_csv(&answers[2].1.body) {
@@ -657,13 +672,13 @@ pub fn run_c35(_p: &str, _tier: Tier, run_seed: u64, ov: &Value) -> RunOut {
                                     let single_col = lossy.first().map(|r| r.len() == 1).unwrap_or(false);
                                     if !(single_col && lossy.iter().any(|r| matches!(r[0], Cell::Null))) {
                                         if let Err(d) = text_rows_match_sql(&st.sql, &lossy, &text) {
-                                            out.violations.push(viol("encodes-the-engine-rows", "csv-body-differs", feats.clone(), format!("{}: {d}", st.sql), ctxj.clone()));
+                                            out.violations.push(viol("encodes-the-engine-rows", "csv-body-differs", feats_enc.clone(), format!("{}: {d}", st.sql), ctxj.clone()));
                                         } else {
                                             out.bump("probe.csv_roundtrip");
                                         }
                                     }
                                 }
-                                Err(e) => out.violations.push(viol("encodes-the-engine-rows", "csv-body-unparseable", feats.clone(), e, ctxj.clone())),
+                                Err(e) => out.violations.push(viol("encodes-the-engine-rows", "csv-body-unparseable", feats_enc.clone(), e, ctxj.clone())),
                             }
                         }
                     }
